@@ -23,7 +23,7 @@ type World map[string]string
 var Baseline = World{
 	"qsig": "ok", "ak": "ok", "mut": "none", "bind": "ok", "qeSigner": "leaf", "authLen": "n32", "extra": "none",
 	"leafPki": "A", "interPki": "A", "rootPki": "A", "pool": "A", "leafRole": "pck", "nBlocks": "n3", "trailer": "none",
-	"pemType": "cert", "interCN": "platform", "leafId": "l1", "interSlot": "inter", "rotVia": "pool", "sharedSigner": "distinct", "src": "gen",
+	"pemType": "cert", "interCN": "platform", "leafId": "l1", "serials": "std", "interSlot": "inter", "rotVia": "pool", "sharedSigner": "distinct", "src": "gen",
 	"tcbSigner": "ok", "tcbOver": "member", "tcbAlter": "none", "tcbExtra": "none", "tcbHdr": "ok", "tcbMeta": "ok",
 	"qeSignerDoc": "ok", "qeOver": "member", "qeAlter": "none", "qeExtra": "none", "qeHdr": "ok", "qeMeta": "ok",
 	"tcbContent": "ok", "modBranch": "none", "qeContent": "ok",
@@ -281,8 +281,20 @@ func Build(w World, p Params) *Concrete {
 	if ks == 0 {
 		ks = 1
 	}
-	A := NewPKI(PKIOpts{T0: t0, InterCN: interCN, RootCrlDP: dps, SerialBase: 0x1000, Seed: ks, Name: "A"})
-	B := NewPKI(PKIOpts{T0: t0, InterCN: interCN, RootCrlDP: dps, SerialBase: 0x1000, Seed: ks, Name: "B"}) // identical names and serials, other keys
+	serialBase, leafTop := int64(0x1000), []byte{0x5a}
+	switch w.Get("serials") {
+	case "std":
+	case "oddHex": // an odd number of hex digits: "a02", not "0a02"
+		serialBase, leafTop = 0x0a00, []byte{0x05}
+	case "highBit": // DER pads the INTEGER with a 00 byte
+		serialBase, leafTop = 0x8000, []byte{0xd5}
+	case "tiny":
+		serialBase, leafTop = 0x10, []byte{}
+	default:
+		panic("bad serials")
+	}
+	A := NewPKI(PKIOpts{T0: t0, InterCN: interCN, RootCrlDP: dps, SerialBase: serialBase, Seed: ks, Name: "A"})
+	B := NewPKI(PKIOpts{T0: t0, InterCN: interCN, RootCrlDP: dps, SerialBase: serialBase, Seed: ks, Name: "B"}) // identical names and serials, other keys
 	c.A, c.B = A, B
 	pki := map[string]*PKI{"A": A, "B": B}
 	H := pki[w.Get("leafPki")] // home PKI: issues the leaf and the honest collateral
@@ -291,7 +303,7 @@ func Build(w World, p Params) *Concrete {
 
 	// second signer certificate (QE identity) so that the two signer serials are distinct
 	qeSignKey := NamedKey(ks, w.Get("leafPki")+".qesign")
-	qeSignCert, qeSignDER := Issue(CertSpec{CN: CNTcbSign, Serial: big.NewInt(0x1004), NotBefore: win["qeSigner"].nb, NotAfter: win["qeSigner"].na,
+	qeSignCert, qeSignDER := Issue(CertSpec{CN: CNTcbSign, Serial: big.NewInt(serialBase + 4), NotBefore: win["qeSigner"].nb, NotAfter: win["qeSigner"].na,
 		CRLDP: dps, Pub: &qeSignKey.PublicKey, Parent: H.Root.Cert, SignKey: H.Root.Key})
 	qeSign := Entity{qeSignKey, qeSignCert, qeSignDER}
 	tcbSign := Reissue(H.TcbSign, H.Root.Cert, H.Root.Key, win["tcbSigner"].nb, win["tcbSigner"].na, nil)
@@ -337,7 +349,10 @@ func Build(w World, p Params) *Concrete {
 	c.FMSPC = hex.EncodeToString(sgx.FMSPC)
 	ext := SgxExt(sgx)
 
-	leafSerial := new(big.Int).SetBytes(append([]byte{0x5a}, RandBytes(rng, 19)...)) // 20-byte positive serial like Intel's
+	leafSerial := new(big.Int).SetBytes(append(append([]byte{}, leafTop...), RandBytes(rng, 19)...)) // 20-byte positive serial like Intel's
+	if len(leafTop) == 0 {
+		leafSerial = big.NewInt(serialBase + 9)
+	}
 	var leaf Entity
 	lw := win["leaf"]
 	// two PCK leaves of the same platform exist; the chain carries leafId, the other one is "the other leaf"
@@ -377,8 +392,22 @@ func Build(w World, p Params) *Concrete {
 	embInter := Reissue(pki[w.Get("interPki")].Inter, pki[w.Get("interPki")].Root.Cert, pki[w.Get("interPki")].Root.Key, win["inter"].nb, win["inter"].na, nil)
 	embRoot := Reissue(pki[w.Get("rootPki")].Root, nil, pki[w.Get("rootPki")].Root.Key, win["root"].nb, win["root"].na, nil)
 	slotInter := embInter // what the second PEM block carries
-	if w.Get("interSlot") == "root" {
+	switch w.Get("interSlot") {
+	case "inter":
+	case "root":
 		slotInter = embRoot
+	case "otherCA": // a genuine CA certificate of the same root, named after the other PCK CA: it did not issue the leaf
+		otherCN := CNProcessor
+		if interCN == CNProcessor {
+			otherCN = CNPlatform
+		}
+		ip := pki[w.Get("interPki")]
+		k := NamedKey(ks, w.Get("interPki")+".otherCA")
+		cert, der := Issue(CertSpec{CN: otherCN, Serial: big.NewInt(serialBase + 5), NotBefore: win["inter"].nb, NotAfter: win["inter"].na, IsCA: true, CRLDP: dps,
+			Pub: &k.PublicKey, Parent: ip.Root.Cert, SignKey: ip.Root.Key})
+		slotInter = Entity{k, cert, der}
+	default:
+		panic("bad interSlot")
 	}
 
 	// ---- quote ----------------------------------------------------------------------
@@ -391,7 +420,7 @@ func Build(w World, p Params) *Concrete {
 	if mod == "none" {
 		svn[1] = 0
 	} else {
-		svn[1] = byte(1 + rng.Intn(3))
+		svn[1] = []byte{1, 2, 3, 0x0a, 0x1f, 0xc4, 0x10, 0xfe}[rng.Intn(8)] // module versions whose hex spelling has letters too
 		svn[0] = byte(5 + rng.Intn(100))
 	}
 	if p.Body != nil { // a given TD body (e.g. the one the sample event log belongs to); the world's modBranch must agree with it
@@ -446,6 +475,23 @@ func Build(w World, p Params) *Concrete {
 		bindAK = PubXY(&k1.PublicKey)
 	}
 	rd := BindingHash(bindAK, q.Auth)
+	switch w.Get("bind") {
+	case "authPrefix": // the QE vouches for a prefix of the authentication data only: bytes were appended afterwards
+		if len(q.Auth) < 60000 {
+			q.Auth = append(q.Auth, RandBytes(rng, 16)...)
+		}
+		rd = BindingHash(bindAK, q.Auth[:len(q.Auth)-16])
+	case "akOnly": // the authentication data takes no part in the hash
+		if len(q.Auth) == 0 {
+			q.Auth = RandBytes(rng, 1)
+		}
+		rd = BindingHash(bindAK, nil)
+	case "authSuffix": // the first byte of the authentication data takes no part in the hash
+		if len(q.Auth) < 60000 {
+			q.Auth = append(RandBytes(rng, 1), q.Auth...)
+		}
+		rd = BindingHash(bindAK, q.Auth[1:])
+	}
 	if w.Get("bind") == "nonZeroTail" {
 		for i := 32; i < 64; i++ {
 			rd[i] = byte(1 + rng.Intn(255))
@@ -645,6 +691,14 @@ func Build(w World, p Params) *Concrete {
 		tcb.Levels = []PlatLevel{e, good, lower}
 	case "fmspcUpper":
 		tcb.Fmspc = strings.ToUpper(c.FMSPC)
+	case "attrsShort": // mask and expected value cover the first four bytes only (and agree with the quote there)
+		tcb.Attrs, tcb.AttrsMask = hex.EncodeToString(attrs[:4]), hex.EncodeToString(mask[:4])
+	case "attrsEmpty": // nothing to compare
+		tcb.Attrs, tcb.AttrsMask = "", ""
+	case "attrsLong": // a mask longer than the field; the expected value agrees on the field's eight bytes
+		tcb.AttrsMask = hex.EncodeToString(append(append([]byte{}, mask...), 0xff, 0xff))
+	case "mrsignerShort": // a prefix of MRSIGNERSEAM
+		tcb.Mrsigner = strings.ToUpper(hex.EncodeToString(mrsignerSeam[:32]))
 	default:
 		panic("bad tcbContent")
 	}
@@ -791,6 +845,16 @@ func Build(w World, p Params) *Concrete {
 			return c
 		}
 		qe.Levels = []ModLevel{{isv + 1, "Revoked"}, {isv, "UpToDate"}, {0, "OutOfDate"}}
+	case "attrsShort": // mask and value cover FLAGS only (8 of 16 bytes) and agree with the report there
+		qe.AttrsMask, qe.Attrs = hex.EncodeToString(amask[:8]), hex.EncodeToString(and(qattr, amask)[:8])
+	case "attrsEmpty":
+		qe.AttrsMask, qe.Attrs = "", ""
+	case "attrsLong": // 24-byte mask, 16-byte value that agrees with the report
+		qe.AttrsMask = hex.EncodeToString(append(append([]byte{}, amask...), 0xff, 0xff, 0xff, 0xff, 0xff, 0xff, 0xff, 0xff))
+	case "miscShort": // two of four bytes, agreeing with the report
+		qe.MiscMask, qe.Misc = hex.EncodeToString(mmask[:2]), hex.EncodeToString(and(misc, mmask)[:2])
+	case "mrsignerShort":
+		qe.Mrsigner = strings.ToUpper(hex.EncodeToString(qmrs[:16]))
 	default:
 		panic("bad qeContent")
 	}
@@ -842,7 +906,7 @@ func Build(w World, p Params) *Concrete {
 				os = O.TcbSign
 			} else {
 				k := NewKey()
-				cc, dd := Issue(CertSpec{CN: CNTcbSign, Serial: big.NewInt(0x1004), NotBefore: farNB, NotAfter: farNA, CRLDP: dps, Pub: &k.PublicKey, Parent: O.Root.Cert, SignKey: O.Root.Key})
+				cc, dd := Issue(CertSpec{CN: CNTcbSign, Serial: big.NewInt(serialBase + 4), NotBefore: farNB, NotAfter: farNA, CRLDP: dps, Pub: &k.PublicKey, Parent: O.Root.Cert, SignKey: O.Root.Key})
 				os = Entity{k, cc, dd}
 			}
 			signKey = os.Key
@@ -855,7 +919,7 @@ func Build(w World, p Params) *Concrete {
 			hdrCerts = [][]byte{root.DER, root.DER}
 		case "selfSigned":
 			k := NewKey()
-			_, dd := Issue(CertSpec{CN: CNTcbSign, Serial: big.NewInt(0x1003), NotBefore: farNB, NotAfter: farNA, CRLDP: dps, Pub: &k.PublicKey, SignKey: k})
+			_, dd := Issue(CertSpec{CN: CNTcbSign, Serial: big.NewInt(serialBase + 3), NotBefore: farNB, NotAfter: farNA, CRLDP: dps, Pub: &k.PublicKey, SignKey: k})
 			signKey = k
 			hdrCerts = [][]byte{dd, root.DER}
 		case "lookalikeSameSerial":
@@ -975,6 +1039,8 @@ func Build(w World, p Params) *Concrete {
 			out = append(out, new(big.Int).SetBytes(t))
 		}
 		out = append(out, new(big.Int).SetBytes(append([]byte{0x01}, b...)))
+		// the same hex digits shifted by one nibble / one byte
+		out = append(out, new(big.Int).Lsh(s, 4), new(big.Int).Lsh(s, 8), new(big.Int).Rsh(s, 4))
 		return out
 	}
 	var pckRev []*big.Int
